@@ -281,10 +281,63 @@ func c20TableScan(c *vf.Ctx) {
 		fail("register", "Register*Algorithm call sites", fmt.Sprintf("table callers=%d scan calls=%d of which in init()=%d", nCallers, scan.regCalls, scan.regInInit),
 			"equal, all inside func init()")
 	}
+	// single-flight call sites: an independent textual count of `.Do(ctx` on memoize.Group fields
+	nFlight := c20CountFlightCalls(c20Repo())
+	nTbl := 0
+	if i := strings.Index(text, "def flightCalls"); i >= 0 {
+		rest := text[i:]
+		if e := strings.Index(rest, "]\n"); e >= 0 {
+			nTbl = strings.Count(rest[:e], "⟨")
+		}
+	}
+	c.Case("c20-scan-flight", true)
+	if nFlight != nTbl || nTbl == 0 {
+		fail("flight-calls", "memoize.Group.Do call sites", fmt.Sprintf("table %d", nTbl), fmt.Sprintf("scan %d (and at least one)", nFlight))
+	}
 	c.Set("access_table", map[string]any{
-		"vars": len(tblVars), "summary": c20SummaryRe.FindString(text),
+		"flight_call_sites": nTbl,
+		"vars":              len(tblVars), "summary": c20SummaryRe.FindString(text),
 		"onces": nOnce, "afterDo_reads": strings.Count(text, "(.afterDo "), "inOnce_reads": strings.Count(text, "(.inOnce "),
 		"viaSync_reads": strings.Count(text, ".viaSync"), "other_reads": strings.Count(text, ", .other,"), "initTime_reads": strings.Count(text, ", .initTime,"),
 		"handed_out_reads": strings.Count(text, ", true⟩"), "register_call_sites": scan.regCalls, "unclassified": strings.Count(text, ".unclassified"),
 	})
+}
+
+// c20CountFlightCalls counts calls `<x>.<field>.Do(` where <field> is declared with a
+// memoize.Group type in the same package directory (syntactic).
+func c20CountFlightCalls(repo string) int {
+	fieldRe := regexp.MustCompile(`(?m)^\s*(\w+)\s+memoize\.Group\[`)
+	n := 0
+	filepath.Walk(repo, func(p string, fi os.FileInfo, err error) error {
+		if err != nil || !fi.IsDir() {
+			return nil
+		}
+		if p != repo && (strings.HasPrefix(fi.Name(), ".") || fi.Name() == "testdata") {
+			return filepath.SkipDir
+		}
+		files, _ := filepath.Glob(filepath.Join(p, "*.go"))
+		var fields []string
+		var srcs []string
+		for _, f := range files {
+			if strings.HasSuffix(f, "_test.go") {
+				continue
+			}
+			b, err := os.ReadFile(f)
+			if err != nil || c20HasVerifTag(b) {
+				continue
+			}
+			srcs = append(srcs, string(b))
+			for _, m := range fieldRe.FindAllStringSubmatch(string(b), -1) {
+				fields = append(fields, m[1])
+			}
+		}
+		for _, fld := range fields {
+			re := regexp.MustCompile(`\.` + regexp.QuoteMeta(fld) + `\.Do(Chan)?\(`)
+			for _, s := range srcs {
+				n += len(re.FindAllString(s, -1))
+			}
+		}
+		return nil
+	})
+	return n
 }
